@@ -1,10 +1,23 @@
 use crate::report::{Cfg, Outcome};
 
 pub mod c01;
+pub mod c11;
+pub mod c12;
+pub mod c14;
+pub mod c15;
+pub mod c16;
+pub mod c16core;
+pub mod c17;
 
 pub fn dispatch(cfg: &Cfg) -> Option<Outcome> {
     Some(match cfg.prop.as_str() {
         "C01" => c01::run(cfg),
+        "C11" => c11::run(cfg),
+        "C12" => c12::run(cfg),
+        "C14" => c14::run(cfg),
+        "C15" => c15::run(cfg),
+        "C16" => c16::run(cfg),
+        "C17" => c17::run(cfg),
         _ => return None,
     })
 }
